@@ -561,3 +561,200 @@ Inductive same_upto (foi : Z -> option str) : jval -> jval -> Prop :=
 | su_obj l l' :
     (forall k d, assoc k l = Some d -> exists d', assoc k l' = Some d' /\ same_upto foi d d') ->
     same_upto foi (JObj l) (JObj l').
+
+(* ------------------------------------------------------------------------------------- *)
+(* Part C: annotations as written in a class definition, and _check_config_struct_type      *)
+(* ------------------------------------------------------------------------------------- *)
+(* Defining a @configstruct class checks nothing; config_struct_from_dict first runs
+   _check_config_struct_type on the class and only then parses.  [ann] is everything an annotation
+   can be as far as the two functions can tell apart; [cty] (above) is the accepted sub-grammar.
+     ARaw RList = List or list, ARaw RDict = Dict or dict, ARaw RTuple = typing.Tuple,
+     ARaw RTupleB = the builtin tuple (parsed like a bare Tuple, but refused by the check);
+     AOpt a = Optional[a];  AUnion ms n = Union of two or more non-None members ms (n: None is a member);
+     ADict kstr a = Dict[K, a] with kstr = (K is str);
+     AOther = anything neither function recognises (Set[int], int | None, list[int], bytes, ...). *)
+Inductive rawkind := RList | RDict | RTuple | RTupleB.
+Inductive ann :=
+| AInt | AFloat | AStr | ABool | AAny
+| ARaw (k : rawkind)
+| AOther
+| AOpt (a : ann)
+| AUnion (ms : anns) (has_none : bool)
+| AList (a : ann)
+| ADict (kstr : bool) (a : ann)
+| AVarTuple (a : ann)
+| ATuple (ms : anns)
+| AStruct (fs : afields)
+with anns := ANil | ACons (a : ann) (r : anns)
+with afields := AFNil | AFCons (name : str) (a : ann) (dflt : option cval) (r : afields).
+
+(* path in a class definition: "[]", "[i]", field name; the three messages of the check *)
+Inductive cpelem := CAny | CIdx (i : nat) | CField (k : str).
+Inductive ckind := CUnion | CNonStrKey | CType.
+Inductive cres := COk | CErr (k : ckind) (p : list cpelem).
+Definition cthen (r k : cres) : cres := match r with COk => k | e => e end.
+
+(* _check_config_struct_type, in the order of its tests *)
+Fixpoint check (a : ann) (p : list cpelem) {struct a} : cres :=
+  match a with
+  | AOpt a' => check a' p                       (* unwrapped, same path *)
+  | AUnion _ _ => CErr CUnion p                 (* raised at the second non-None member *)
+  | AInt | AFloat | AStr | ABool | AAny => COk
+  | ARaw RTupleB => CErr CType p
+  | ARaw _ => COk
+  | AList a' => check a' (p ++ [CAny])
+  | AVarTuple a' => check a' (p ++ [CAny])
+  | ATuple ms => check_tuple ms 0 p
+  | ADict kstr a' => if kstr then check a' (p ++ [CAny]) else CErr CNonStrKey p
+  | AStruct fs => check_fields fs p
+  | AOther => CErr CType p
+  end
+with check_tuple (ms : anns) (i : nat) (p : list cpelem) {struct ms} : cres :=
+  match ms with
+  | ANil => COk
+  | ACons a r => cthen (check a (p ++ [CIdx i])) (check_tuple r (S i) p)
+  end
+with check_fields (fs : afields) (p : list cpelem) {struct fs} : cres :=
+  match fs with
+  | AFNil => COk
+  | AFCons n a _ r => cthen (check a (p ++ [CField n])) (check_fields r p)
+  end.
+
+(* the accepted type an annotation stands for, if any *)
+Fixpoint denote (a : ann) : option cty :=
+  match a with
+  | AInt => Some TInt | AFloat => Some TFloat | AStr => Some TStr | ABool => Some TBool | AAny => Some TAny
+  | ARaw RList => Some TRawList | ARaw RDict => Some TRawDict | ARaw RTuple => Some TRawTuple
+  | ARaw RTupleB => None
+  | AOther => None
+  | AOpt a' => option_map TOpt (denote a')
+  | AUnion _ _ => None
+  | AList a' => option_map TList (denote a')
+  | ADict kstr a' => if kstr then option_map TDict (denote a') else None
+  | AVarTuple a' => option_map TVarTuple (denote a')
+  | ATuple ms => option_map TTuple (denote_anns ms)
+  | AStruct fs => option_map TStruct (denote_fields fs)
+  end
+with denote_anns (ms : anns) : option ctys :=
+  match ms with
+  | ANil => Some TNil
+  | ACons a r => match denote a, denote_anns r with
+                 | Some t, Some ts => Some (TCons t ts)
+                 | _, _ => None end
+  end
+with denote_fields (fs : afields) : option cfields :=
+  match fs with
+  | AFNil => Some FNil
+  | AFCons n a d r => match denote a, denote_fields r with
+                      | Some t, Some fs' => Some (FCons n t d fs')
+                      | _, _ => None end
+  end.
+
+Fixpoint alen (ms : anns) : nat := match ms with ANil => 0 | ACons _ r => S (alen r) end.
+Fixpoint afnames (fs : afields) : list str :=
+  match fs with AFNil => [] | AFCons n _ _ r => n :: afnames r end.
+
+Section ParseAnn.
+  Variable foi : Z -> option str.
+
+  (* _parse_config_value on ANY annotation (the generated constructor calls it without the check).
+     Branches that exist only for annotations outside the accepted grammar: the last member of a
+     multi-member Union is taken; a Dict key type is ignored; the builtin tuple is a bare Tuple;
+     an unrecognised annotation falls through to the type-mismatch error. *)
+  Fixpoint parse_ann (a : ann) (d : jval) (p : path) {struct a} : result cval :=
+    match a with
+    | AInt => parse foi TInt d p
+    | AFloat => parse foi TFloat d p
+    | AStr => parse foi TStr d p
+    | ABool => parse foi TBool d p
+    | AAny => parse foi TAny d p
+    | ARaw RList => parse foi TRawList d p
+    | ARaw RDict => parse foi TRawDict d p
+    | ARaw RTuple | ARaw RTupleB => parse foi TRawTuple d p
+    | AOther => Err Mismatch p
+    | AOpt a' => match d with JNull => Ok VNull | _ => parse_ann a' d p end
+    | AUnion ms hn => if hn then match d with JNull => Ok VNull | _ => parse_last ms d p end
+                      else parse_last ms d p
+    | AList a' => match d with
+                  | JList l => rmap VList (parse_elems (parse_ann a') l 0 p)
+                  | _ => Err Mismatch p end
+    | AVarTuple a' => match d with
+                      | JList l => rmap VTuple (parse_elems (parse_ann a') l 0 p)
+                      | _ => Err Mismatch p end
+    | ATuple ms => match d with
+                   | JList l => if Nat.eqb (length l) (alen ms)
+                                then rmap VTuple (parse_atuple ms l 0 p)
+                                else Err Mismatch p
+                   | _ => Err Mismatch p end
+    | ADict _ a' => match d with
+                    | JObj l => rmap VDict (parse_items (parse_ann a') l p)
+                    | _ => Err Mismatch p end
+    | AStruct fs => match d with
+                    | JObj l =>
+                        rbind (parse_afields fs l p) (fun items =>
+                          match first_unknown (afnames fs) (map fst l) with
+                          | Some k => Err Unknown (p ++ [PField k])
+                          | None => Ok (VStruct items)
+                          end)
+                    | _ => Err Mismatch p end
+    end
+  with parse_last (ms : anns) (d : jval) (p : path) {struct ms} : result cval :=
+    match ms with
+    | ANil => Err Mismatch p
+    | ACons a ANil => parse_ann a d p
+    | ACons _ r => parse_last r d p
+    end
+  with parse_atuple (ms : anns) (l : list jval) (i : nat) (p : path) {struct ms}
+    : result (list cval) :=
+    match ms, l with
+    | ANil, _ => Ok []
+    | ACons a r, e :: l' =>
+        rbind (parse_ann a e (p ++ [PIdx i])) (fun v => rmap (cons v) (parse_atuple r l' (S i) p))
+    | ACons _ _, [] => Err Mismatch p
+    end
+  with parse_afields (fs : afields) (l : list (str * jval)) (p : path) {struct fs}
+    : result (list (str * cval)) :=
+    match fs with
+    | AFNil => Ok []
+    | AFCons n a dflt r =>
+        match assoc n l with
+        | Some d => rbind (parse_ann a d (p ++ [PField n]))
+                      (fun v => rmap (cons (n, v)) (parse_afields r l p))
+        | None => match dflt with
+                  | None => Err Missing (p ++ [PField n])
+                  | Some dv => rmap (cons (n, dv)) (parse_afields r l p)
+                  end
+        end
+    end.
+End ParseAnn.
+
+(* sub-annotations: everything the parser can be called on while parsing for annotation a *)
+Inductive subann : ann -> ann -> Prop :=
+| sa_refl a : subann a a
+| sa_opt b a : subann b a -> subann b (AOpt a)
+| sa_union b ms hn : subann_anns b ms -> subann b (AUnion ms hn)
+| sa_list b a : subann b a -> subann b (AList a)
+| sa_dict b k a : subann b a -> subann b (ADict k a)
+| sa_vartuple b a : subann b a -> subann b (AVarTuple a)
+| sa_tuple b ms : subann_anns b ms -> subann b (ATuple ms)
+| sa_struct b fs : subann_fields b fs -> subann b (AStruct fs)
+with subann_anns : ann -> anns -> Prop :=
+| saa_here b a r : subann b a -> subann_anns b (ACons a r)
+| saa_later b a r : subann_anns b r -> subann_anns b (ACons a r)
+with subann_fields : ann -> afields -> Prop :=
+| saf_here b n a d r : subann b a -> subann_fields b (AFCons n a d r)
+| saf_later b n a d r : subann_fields b r -> subann_fields b (AFCons n a d r).
+
+(* the annotation at definition path q is refused, with this message kind *)
+Inductive unsup_at : ann -> list cpelem -> ckind -> Prop :=
+| un_union ms hn : unsup_at (AUnion ms hn) [] CUnion
+| un_key a : unsup_at (ADict false a) [] CNonStrKey
+| un_other : unsup_at AOther [] CType
+| un_tupleb : unsup_at (ARaw RTupleB) [] CType
+| un_opt a q k : unsup_at a q k -> unsup_at (AOpt a) q k
+| un_list a q k : unsup_at a q k -> unsup_at (AList a) (CAny :: q) k
+| un_dict a q k : unsup_at a q k -> unsup_at (ADict true a) (CAny :: q) k
+| un_vartuple a q k : unsup_at a q k -> unsup_at (AVarTuple a) (CAny :: q) k
+| un_tuple ms i a q k : anth ms i = Some a -> unsup_at a q k -> unsup_at (ATuple ms) (CIdx i :: q) k
+| un_struct fs n a d q k : afield_in fs n a d -> unsup_at a q k -> unsup_at (AStruct fs) (CField n :: q) k
+with anth_dummy : Prop := .
